@@ -237,3 +237,82 @@ Example C04_recv_regression :
     [(0, 0, 0); (0, 0, 1); (1, 0, 0); (1, 0, 0); (0, 1, 0); (0, 0, 1)].
 Proof. exact recv_example. Qed.
 Print Assumptions C04_recv_regression.
+
+(** ** The sender half of the glue (round 3): k send streams (the C01 model SendStream/Model.v of
+    send_stream.go, with its stream flow controller) sharing one connection flow controller of
+    the FlowCtl model, plus the framer's DATA_BLOCKED check — FlowCtl/SendGlue.v.
+    [grun_state ginit ops]: ANY sequence of stream creations (initial limit >= 0), entry points
+    of any stream (Write, writer wake-up, Close, popStreamFrame with any budget, OnAcked/OnLost of
+    any frame in flight, CancelWrite, STOP_SENDING, getControlFrame, RESET acked/lost,
+    MAX_STREAM_DATA, SetReliableBoundary, enableResetStreamAt, closeForShutdown), MAX_DATA frames
+    and framer checks, in any interleaving. *)
+From V Require Import Lib.Hex SendStream.Model SendStream.ProofsInv FlowCtl.SendGlue FlowCtl.SendGlueProofs.
+
+(** the flow-controller code inlined in the C01 model is the FlowCtl model *)
+Theorem C04_sender_fc_refines : forall s,
+  fcSendWindow s = b_sendWindowSize (fc_base s) /\
+  (forall lb, ccSendWindow s = b_sendWindowSize (cc_base s lb)) /\
+  (forall lb, sendWindowSize s = Z.min (b_sendWindowSize (fc_base s)) (b_sendWindowSize (cc_base s lb))) /\
+  fc_base (fst (isNewlyBlocked s)) = fst (b_isNewlyBlocked (fc_base s)) /\
+  snd (isNewlyBlocked s) = fst (snd (b_isNewlyBlocked (fc_base s))) /\
+  (forall n, fc_base (addBytesSent n s) = b_addBytesSent (fc_base s) n) /\
+  (forall n lb, cc_base (addBytesSent n s) lb = b_addBytesSent (cc_base s lb) n) /\
+  (forall l, fc_base (fst (do_win l s)) = fst (b_updateSendWindow (fc_base s) l)).
+Proof. exact fc_refines. Qed.
+Print Assumptions C04_sender_fc_refines.
+
+(** (a) for every history: per stream, the payload of all first transmissions = writeOffset = what
+    the stream controller counted, and it is within the stream's send limit; summed over the
+    streams it is what the connection controller counted, within the connection's send limit. *)
+Theorem C04_sender_glue_within_credit : forall ops, Forall gop_ok ops ->
+  let g := grun_state ginit ops in
+  Forall (fun s => sumlen (emittedNew s) = writeOffset s /\ fcSent s = writeOffset s /\
+                   0 <= writeOffset s <= fcWindow s) (strs g) /\
+  sumf fWO (strs g) = bytesSent (gcn g) /\ bytesSent (gcn g) <= sendWindow (gcn g).
+Proof. exact sender_glue_within_credit. Qed.
+Print Assumptions C04_sender_glue_within_credit.
+
+(** ... and those limits are limits the peer gave: a send window only ever changes to the value of
+    a MAX_STREAM_DATA / MAX_DATA frame, upwards (so it is the largest limit ever advertised). *)
+Theorem C04_sender_glue_limits_advertised : forall g o,
+  let g' := fst (gstep g o) in
+  (sendWindow (gcn g') = sendWindow (gcn g) \/
+   exists l, o = GConnWin l /\ sendWindow (gcn g') = l /\ l > sendWindow (gcn g)) /\
+  forall i s s', nth_error (strs g) i = Some s -> nth_error (strs g') i = Some s' ->
+    fcWindow s' = fcWindow s \/ exists l, o = GStream i (OWin l) /\ fcWindow s' = l /\ l > fcWindow s.
+Proof. exact gstep_limits. Qed.
+Print Assumptions C04_sender_glue_limits_advertised.
+
+(** retransmissions add nothing: every frame any popStreamFrame ever returned (first transmission,
+    retransmission, split or truncated piece) ends at or below the stream's write offset.
+    ([late]: enableResetStreamAt() on an already reset stream, see C01.) *)
+Theorem C04_sender_glue_retransmissions_add_nothing : forall ops,
+  let g := grun_state ginit ops in
+  Forall lateF (strs g) ->
+  Forall (fun s => Forall (fun f => f_end f <= writeOffset s) (emitted s)) (strs g).
+Proof. exact sender_glue_frames_within_credit. Qed.
+Print Assumptions C04_sender_glue_retransmissions_add_nothing.
+
+(** (b) the log of all STREAM_DATA_BLOCKED (stream, value) and of all DATA_BLOCKED values ever
+    produced has no duplicates; a STREAM_DATA_BLOCKED carries the stream's limit and is only
+    produced when the limit is used up. *)
+Theorem C04_sender_glue_blocked_once : forall ops, Forall gop_ok ops ->
+  let g := grun_state ginit ops in NoDup (sdb g) /\ NoDup (db g).
+Proof. exact sender_glue_blocked_once. Qed.
+Print Assumptions C04_sender_glue_blocked_once.
+
+Theorem C04_sender_glue_blocked_truthful : forall g i o v,
+  GI g -> o_blocked (match snd (gstep g (GStream i o)) with Some x => x | None => out0 end) = Some v ->
+  exists s', nth_error (strs (fst (gstep g (GStream i o)))) i = Some s' /\
+             v = fcWindow s' /\ writeOffset s' = fcWindow s'.
+Proof. exact sender_glue_blocked_truthful. Qed.
+Print Assumptions C04_sender_glue_blocked_truthful.
+
+Example C04_sender_glue_example :
+  let g := grun_state ginit gex_ops in
+  map writeOffset (strs g) = [5; 2] /\ map fcWindow (strs g) = [5; 10] /\
+  bytesSent (gcn g) = 7 /\ sendWindow (gcn g) = 7 /\ sdb g = [(0%nat, 4); (0%nat, 5)] /\ db g = [6] /\
+  map (fun s => map (fun f => (f_off f, zlen (f_data f))) (emitted s)) (strs g) = [[(0, 4); (0, 4); (4, 1)]; [(0, 2)]] /\
+  Forall lateF (strs g).
+Proof. exact sender_example. Qed.
+Print Assumptions C04_sender_glue_example.
